@@ -97,6 +97,8 @@ def run(ctx):
                        "millis": 2500 if ctx.tier == "thorough" else 1200, "stall_ms": 1000, "slow_sends": ctx.rng.choice([0, 0, 40]),
                        "stalled": ctx.rng.choice([0, 1, 2])})
     storms[0]["stalled"] = 2
+    for sp in storms[1:]:
+        sp["failing"] = ctx.rng.range(1, 3)
     spath = os.path.join(ctx.workdir, "storm.cases")
     open(spath, "w").write("\n".join("storm " + json.dumps(sp).encode().hex() for sp in storms) + "\n")
     rc = ctx.run_harness(exe, spath, os.path.join(ctx.workdir, "storm.out"), timeout=300)
@@ -142,7 +144,7 @@ def run(ctx):
         "storms": len(storms), "storm_hub_operations": stats.get("storm_ops", 0),
     })
     ctx.assumptions += [
-        "free-running storms (2-6 relays, 2-5 joiners/leavers with shared peer ids, 0-2 session closers, 0-2 members whose socket write is stalled and who are replaced by reconnects, a watchdog on completed operations) sample schedules below the park granularity; they can show a stall or panic, not exclude one",
+        "free-running storms (2-6 relays, 2-5 joiners/leavers with shared peer ids, 0-2 session closers, 0-2 members whose socket write is stalled and who are replaced by reconnects, 1-3 members whose socket write fails while others keep addressing them until their handler removes them, a watchdog on completed operations) sample schedules below the park granularity; they can show a stall or panic, not exclude one",
         "a model step = the real code between two park places; data races inside such a stretch are visible only to the -race run of the thorough tier",
         "connection ids passed to Add are pairwise distinct (the server draws them with protocol.NewMsgID) and a remove func is called only after its Add returned",
         "send functions of the schedule replay return at once; stalled socket writes (which must stall only that connection's writer goroutine and delay its remove by the 1 s wait) are exercised by the storms",
